@@ -646,6 +646,7 @@ ensures:
     final(changeset).original_tree_length == old(changeset).original_tree_length && final(changeset).original_tree_fork == old(changeset).original_tree_fork,
     // the roots that a commit would install still form a mountain range ending at the new length
     r is Ok ==> final(changeset).cs_wf() && final(changeset).cs_mr()
+sub `\n    Ok\(([^\n]+)\)\n\}\s*$` => `\n    { let vp_ret: bool = \1;\n    // C04: `true` tells verify_proof that the root recomputed from the block / hash / seek section needs no comparison with a\n    // locally stored node - allowed only when that root was taken out of the queue, i.e. hashed into the signed roots\n    assert(vp_ret ==> q.extra is None);\n    Ok(vp_ret) }\n}`
 first:
     let ghost cs0 = *changeset;
     let ghost mut gn: int = 0;
